@@ -508,7 +508,11 @@ class BlackbirdProgram:
                     script.extend(numpy_to_blackbird(v, k)[:-1])
                     continue
 
-                var_type = inv_type_map[np.array(v).dtype.kind]
+                if isinstance(v, (int, np.integer)) and not isinstance(v, (bool, np.bool_)):
+                    # integers beyond the int64 range have an unsigned or object dtype
+                    var_type = "int"
+                else:
+                    var_type = inv_type_map[np.array(v).dtype.kind]
                 array_string = ""
                 if isinstance(v, Iterable) and not isinstance(v, str):
                     for row in v:
